@@ -658,7 +658,10 @@ fn cmd_merge(prop: &str, tier: &str, out: &str, parts: &[String]) -> i32 {
         violations += v["violations"].as_i64().unwrap_or(0);
         rule = c["rule"].as_str().unwrap_or("").to_string();
         seed = v["seed"].as_i64().unwrap_or(0);
-        level = v["level"].as_str().unwrap_or("exploration").to_string();
+        // the level is a property of the check, not of a part (the libFuzzer part does
+        // not know it)
+        let _ = &v["level"];
+        level = level_of(prop).to_string();
         builds.push(b);
     }
     let mut cov = json!({
